@@ -130,7 +130,17 @@ def _child_main(fn, arg, wfd):
     except BaseException:  # noqa: BLE001
         status = 3
     finally:
+        _drop_empty_scratch()
         os._exit(status)
+
+
+def _drop_empty_scratch():
+    """Remove this process's scratch directory if it is empty (runs clean their own files up; the directory itself would pile up by the thousand)."""
+    for base in ("/dev/shm", os.environ.get("TMPDIR", "/tmp")):
+        try:
+            os.rmdir(os.path.join(base, f"rsim-{os.getpid()}"))
+        except OSError:
+            pass
 
 
 def _die_with_parent():
@@ -269,6 +279,7 @@ def fork_call(fn, arg, timeout=600.0):
         except BaseException:  # noqa: BLE001
             status = 3
         finally:
+            _drop_empty_scratch()
             os._exit(status)
     os.close(wfd)
     buf = bytearray()
